@@ -239,7 +239,7 @@ func (x *Exec) translateObligation(ob *Obligation) (q *Query) {
 		x.fullScript(ob, q, sel, goalConjs, replaced)
 	}
 	q.full = func() { q.fullK(0) }
-	q.lazyInst = len(hyps) > 0
+	q.lazyInst = len(hyps) > 0 || (x.con != nil && x.con.Hybrid)
 	return q
 }
 
